@@ -104,6 +104,7 @@ def _case(rng, spec, m, n, perms, dtype=None):
     if kind == "offset":
         mat["ratio"] = 1e4 if dtype == "float32" else 1e8
         mat["scale"] = 1.0
+        # (equal spreads: the scores are close to one another, which is where noisy distances change the selection)
     if perms != "all":
         perms = [rng.sample(range(m), m) for _ in range(perms)]
     return {"agg": spec, "mat": mat, "perms": perms, "seed": rng.randrange(10**6)}
@@ -127,6 +128,15 @@ def cases(tier, seed, focus=None):
                     out.append(_case(rng, spec, m, rng.randint(1, 9), "all"))
             for _ in range(20 if slow else 120):
                 out.append(_case(rng, spec, rng.randint(6, 7), rng.randint(1, 9), 8))
+    # directed: Krum on more than 25 rows sharing a large common component (see _case)
+    rk = random.Random(10010000 + seed)
+    kr = [a for a in AGGS if a["name"] == "Krum"]
+    for j in range(10 if tier == "quick" else 60):
+        c = _case(rk, kr[j % len(kr)], 26, 8, 6, dtype="float32")
+        if c["mat"]["kind"] != "offset":
+            c["mat"].update(kind="offset", m=rk.choice([26, 27, 30]), n=rk.choice([5, 7, 8]), ratio=1e4, scale=1.0)
+            c["perms"] = [rk.sample(range(c["mat"]["m"]), c["mat"]["m"]) for _ in range(6)]
+        out.append(c)
     return out
 
 
@@ -182,6 +192,13 @@ def run_case(case):
             return {"ok": True, "sig": sig, "nontrivial": False, "note": "outside the clause (tie / ambiguous rank)"}
         d = float(np.abs(rp64 - r64).max()) if n else 0.0
         compared += 1
+        if name == "Krum":
+            # Krum's weights are a selection: away from score ties the SAME rows must be selected wherever they sit in J (a
+            # comparison of values is blind to which of several nearby rows was averaged when the rows are large)
+            w0, wp = to64(agg.weighting(J)), to64(aggP.weighting(PJ))
+            if float(np.abs(wp - w0[np.asarray(perm)]).max()) > 1e-6:
+                return fail(key, f"Krum: the rows selected for P J are not the rows selected for J (row permutation {perm})", sig,
+                            rows_differ, small(wp), small(w0[np.asarray(perm)]), perm=perm)
         if not d <= tol:
             return fail(key, f"{name}: A_P(PJ) != A(J) for the row permutation {perm}: max abs diff {d:.3e} > tol "
                         f"{tol:.3e}", sig, rows_differ, small(rp), small(r), perm=perm, matrix=small(J, 40))
